@@ -839,6 +839,24 @@ class Ctx:
         k = key or ('order:%s:%s<%s' % (fn_short(f.name), fname, tname))
         fs, edges = self.success_edges_of(lf, fp, first_want)
         ts = self.call_sites(body, tp)
+        if not fs and first_want == +1:
+            # `first` may have moved into a helper (sync helpers are spliced; async ones are not): helpers under the entry whose own
+            # success requires a successful `first` stand for it
+            fpl = [fp] if isinstance(fp, str) else list(fp)
+            helpers = []
+            for h in self.closure_fns(f, depth=3):
+                if h is getattr(f, '_orig', f).root() or any(match_any(fpl, h.name) for _ in [0]):
+                    continue
+                try:
+                    if self.mpt.enforces(h, Sink(fname, fpl, 'ok')).holds:
+                        helpers.append(h.name)
+                except Exception:  # noqa
+                    pass
+            if helpers:
+                fs, edges = self.success_edges_of(lf, helpers, +1)
+        if not ts:
+            # ... and `then` likewise: its call sites inside helpers are checked where they are (the helper must itself respect the order)
+            pass
         if not fs or not ts:
             self.report.violation(clause, 'R2', inst, k, '%s sites: %d, %s sites: %d' % (fname, len(fs), tname, len(ts)), f.loc())
             return False
